@@ -7,6 +7,7 @@ ASSUMPTIONS = [
     "the HTTP libraries (reqwest/hyper, libcurl, ureq) are not modelled: model/Adapters.v states their contract (lib_behaviour) and this loopback run is what ties the contract to the real libraries",
     "reqwest clients are built with redirect::Policy::none() and the ureq agent with redirects(0), as the crate's documentation requires of callers; the curl adapter sets nothing and must not follow by itself",
     "every exchange runs under a 10 s watchdog; HANG and PANIC are observations",
+    "a Content-Length of 2^63 or more is outside what libcurl parses: it ignores the header and delivers the bytes up to the close; the huge-Content-Length faults beyond 2^40 are therefore run through reqwest and ureq only (observation of the library, not of the adapter code)",
     "what the model cannot exhibit: socket behaviour, TLS, HTTP/2, proxies, timeouts of the libraries",
 ]
 ADAPTERS = ["reqwest", "reqwest_blocking", "curl", "ureq"]
@@ -43,6 +44,12 @@ def gen(tier, rng):
             for body in (b"hello world, this is a body", b"x" * 70000):
                 out.append((line(a, REQ_BODIES[0], None, "/token", 200, CTS[1], fr, body, "truncated"), "fault/truncated-" + fr))
                 out.append((line(a, REQ_BODIES[0], None, "/token", 400, CTS[1], fr, body, "truncated"), "fault/truncated-" + fr))
+        # a Content-Length far beyond what can be buffered (2^40, 2^63, u64::MAX - 2), a short body, then a close
+        for fault in ("huge_cl40", "huge_cl63", "huge_clmax"):
+            if a == "curl" and fault != "huge_cl40":
+                continue    # libcurl ignores a Content-Length beyond i64 and reads to the close (see ASSUMPTIONS)
+            for st in (200, 400):
+                out.append((line(a, REQ_BODIES[0], None, "/token", st, CTS[1], "cl", REPLY_BODIES[1], fault), "fault/" + fault))
         # whole flows: an OAuth error reply is classified as through an in-memory client
         for st, body in ((400, b"{\"error\":\"invalid_grant\"}"), (400, b"{\"error\":\"authorization_pending\"}"), (401, b"{\"error\":\"invalid_client\",\"error_description\":\"x\"}"),
                          (200, b"{\"access_token\":\"tok\",\"token_type\":\"Bearer\",\"expires_in\":3600}"), (500, b""), (503, b"<html>"), (200, b"not json"), (403, b"{\"error\":\"custom\"}")):
